@@ -1,6 +1,7 @@
 SPECIFICATION MCSpec
 CONSTANT L = 8
 CONSTANT Kind = "NS"
+CONSTANT LOBound = "asis"
 VIEW View
 INVARIANT Ok
 INVARIANT Inv
